@@ -13,8 +13,8 @@ START=$(date +%s)
 ./vcheck "$ID" --tier "$TIER" > /tmp/try_seed_$ID.out 2>&1
 RC=$?
 END=$(date +%s)
-git -C /repo checkout -- . 
 git -C /repo reset -q
+git -C /repo checkout -- .
 echo "check=$ID tier=$TIER exit=$RC wall=$((END-START))s violations_lines=$(grep -c '^VIOLATION' /tmp/try_seed_$ID.out)"
 grep -E "^VIOLATION|signature|message" /tmp/try_seed_$ID.out | head -8
 tail -3 /tmp/try_seed_$ID.out
